@@ -2606,3 +2606,125 @@ def rule_c14_ordersel(r):
         for row in rows:
             _, status, f, fn, construct, line, detail = row
             getattr(r, status)(f, fn, construct, line, detail)
+
+
+# --------------------------------------------------------------------------------------------- python path: q buffer layout
+def rule_py_qlayout(r):
+    """Writer and reader of the Python path's q buffer agree.  PyInput.__init__ stores a 2-D request as an (nq, 2) array with
+    q_vectors[k] in column k; PyKernel.__init__ must hand the model (column 0, column 1) of that array as (qx, qy), and
+    the default Iqxy built from Iq evaluates Iq at sqrt(qx^2 + qy^2).  Folds (E-val) are used, so any spelling of a
+    column read (q[:, 0], q.T[0], q[..., 0]) that folds to the same value is accepted."""
+    kp = pf.lib("kernelpy")
+    F = kp.relpath
+    # writer
+    pin = kp.func("PyInput.__init__")
+    cols = {}
+    shape = None
+    for st in pf.walk_stmts(pin):
+        if isinstance(st, ast.Assign) and len(st.targets) == 1:
+            t = pf.unparse(st.targets[0])
+            if t == "self.q" and isinstance(st.value, ast.Call) and st.value.args and isinstance(st.value.args[0], ast.Tuple):
+                shape = pf.unparse(st.value.args[0])
+            m = re.fullmatch(r"self\.q\[:, (\d)\]", t)
+            if m:
+                cols[int(m.group(1))] = pf.unparse(st.value)
+    if shape is None or len(cols) != 2:
+        raise AnalysisError("PyInput.__init__: (nq, 2) allocation and the two column stores not found")
+    r.check(shape.replace(" ", "") == "(self.nq,2)" and cols == {0: "q_vectors[0]", 1: "q_vectors[1]"}, F, "PyInput.__init__",
+            "self.q = empty(%s); column 0 <- %s, column 1 <- %s" % (shape, cols.get(0), cols.get(1)), pin.lineno,
+            "2-D request stored as (nq, 2) with qx in column 0 and qy in column 1")
+    # reader
+    pk = kp.func("PyKernel.__init__")
+    got = None
+    for st in pf.walk_stmts(pk):
+        if isinstance(st, ast.Assign) and len(st.targets) == 1 and isinstance(st.targets[0], ast.Tuple) and \
+                [pf.unparse(e) for e in st.targets[0].elts] == ["qx", "qy"]:
+            got = st
+    if got is None:
+        raise AnalysisError("PyKernel.__init__: `qx, qy = ...` not found")
+    v = got.value
+    ok = False
+    if isinstance(v, ast.Tuple) and len(v.elts) == 2:
+        texts = [pf.unparse(e).replace(" ", "") for e in v.elts]
+        forms = [("q_input.q[:,%d]" % k, "q_input.q.T[%d]" % k, "q_input.q[...,%d]" % k) for k in (0, 1)]
+        ok = texts[0] in forms[0] and texts[1] in forms[1]
+    elif pf.unparse(v).replace(" ", "") in ("q_input.q.T", "q_input.q.transpose()"):
+        ok = True
+    r.check(ok, F, "PyKernel.__init__", "qx, qy = %s" % pf.unparse(v), got.lineno,
+            "the model receives column 0 and column 1 of the (nq, 2) buffer; a reshape of the interleaved buffer pairs the wrong numbers")
+    lam = [n for n in ast.walk(pk) if isinstance(n, ast.Lambda) and isinstance(n.body, ast.Call) and pf.unparse(n.body.func) == "form"
+           and [pf.unparse(a) for a in n.body.args[:2]] == ["qx", "qy"]]
+    r.check(bool(lam), F, "PyKernel.__init__", "self._form = lambda: form(qx, qy, *kernel_args)", pk.lineno, "Iqxy is called with (qx, qy) in that order")
+    # default Iqxy from Iq
+    cv = kp.func("_create_vector_Iqxy")
+    default = [n for n in ast.walk(cv) if isinstance(n, ast.FunctionDef) and n is not cv and [a.arg for a in n.args.args[:2]] == ["qx", "qy"]
+               and any(isinstance(c, ast.Call) and re.sub(r"\s", "", pf.unparse(c.args[0]) if c.args else "") in
+                       ("np.sqrt(qx**2+qy**2)", "sqrt(qx**2+qy**2)", "np.hypot(qx,qy)", "np.sqrt(qx*qx+qy*qy)") for c in ast.walk(n))]
+    r.check(bool(default), F, "_create_vector_Iqxy", "default Iqxy(qx, qy) = Iq(sqrt(qx**2 + qy**2))", cv.lineno,
+            "a model without its own Iqxy depends on |q| only")
+
+
+# --------------------------------------------------------------------------------------------- restored objects are complete
+def rule_c18_restore(r):
+    """A compiled model reaches a worker process by pickling: __setstate__ runs instead of __init__.  For every model class
+    of the three back ends that defines both, each attribute that __init__ sets from a constructor argument and that some
+    other method reads must also be set by __setstate__ (directly or in a method it calls) from the pickled state, and
+    __getstate__ must hand over as many values as __setstate__ unpacks.  A class-level default does not count: the
+    restored object would silently run with the default instead of what the model was built with."""
+    n_cls = 0
+    for modname in ("kerneldll", "kernelcl", "kernelcuda"):
+        mod = pf.lib(modname)
+        F = mod.relpath
+        for cls in [n for n in mod.tree.body if isinstance(n, ast.ClassDef)]:
+            meths = {m.name: m for m in cls.body if isinstance(m, ast.FunctionDef)}
+            if "__init__" not in meths or "__setstate__" not in meths:
+                continue
+            n_cls += 1
+            init, sets = meths["__init__"], meths["__setstate__"]
+            params = {a.arg for a in init.args.args[1:]} | {a.arg for a in init.args.kwonlyargs}
+
+            def self_targets(fn, seen=()):
+                out = {}
+                for st in ast.walk(fn):
+                    tg = []
+                    if isinstance(st, ast.Assign):
+                        tg = [(t, st.value) for t in st.targets]
+                    elif isinstance(st, ast.AnnAssign) and st.value is not None:
+                        tg = [(st.target, st.value)]
+                    for t, v in tg:
+                        for e in (t.elts if isinstance(t, (ast.Tuple, ast.List)) else [t]):
+                            if isinstance(e, ast.Attribute) and isinstance(e.value, ast.Name) and e.value.id == "self":
+                                out[e.attr] = v
+                    if isinstance(st, ast.Call) and isinstance(st.func, ast.Attribute) and isinstance(st.func.value, ast.Name) \
+                            and st.func.value.id == "self" and st.func.attr in meths and st.func.attr not in seen:
+                        out.update(self_targets(meths[st.func.attr], seen + (st.func.attr,)))
+                return out
+            from_args = {a: v for a, v in self_targets(init).items()
+                         if any(isinstance(x, ast.Name) and x.id in params for x in ast.walk(v))}
+            restored = self_targets(sets)
+            read = {}
+            for name, m in meths.items():
+                if name in ("__init__", "__setstate__"):
+                    continue
+                for x in ast.walk(m):
+                    if isinstance(x, ast.Attribute) and isinstance(x.value, ast.Name) and x.value.id == "self" and isinstance(x.ctx, ast.Load):
+                        read.setdefault(x.attr, (name, x.lineno))
+            for a in sorted(from_args):
+                if a not in read:
+                    r.ok(F, "%s.__setstate__" % cls.name, "self.%s" % a, sets.lineno, "set by __init__ from its arguments, read by no method")
+                    continue
+                r.check(a in restored, F, "%s.__setstate__" % cls.name, "self.%s restored from the pickled state" % a, sets.lineno,
+                        "__init__ sets self.%s = %s and %s reads it (line %d); an unpickled model that does not carry it runs with the "
+                        "class default instead of what it was built with" % (a, pf.unparse(from_args[a])[:60], read[a][0], read[a][1]))
+            # __getstate__ / __setstate__ arity
+            if "__getstate__" in meths:
+                rets = [s for s in ast.walk(meths["__getstate__"]) if isinstance(s, ast.Return) and s.value is not None]
+                unpack = [st for st in ast.walk(sets) if isinstance(st, ast.Assign) and isinstance(st.value, ast.Name)
+                          and st.value.id == sets.args.args[1].arg and isinstance(st.targets[0], ast.Tuple)]
+                if rets and unpack and isinstance(rets[0].value, ast.Tuple):
+                    got = [pf.unparse(e) for e in rets[0].value.elts]
+                    want = [pf.unparse(e) for e in unpack[0].targets[0].elts]
+                    r.check(got == want, F, "%s.__getstate__" % cls.name, "state = (%s)" % ", ".join(got), rets[0].lineno,
+                            "__setstate__ unpacks (%s): same attributes in the same order" % ", ".join(want))
+    if n_cls < 3:
+        raise AnalysisError("fewer than three model classes with __init__ and __setstate__ found (%d)" % n_cls)
